@@ -1,7 +1,8 @@
 /-
   Line handlers for C11 (grammar: harness/cmd/c11/main.go).
-    inst <J0> <J> → "<P> <V> <R>\t<reasons>"   P = acceptsPlain, V = jsValid j.doc, R = jsValid (toDoc (fromJ0 j))
-    kw <keyword>  → row of Gen.keywordTable ("<documented> <strictRejects>")
+    kw <keyword>    → row of Gen.keywordTable ("<documented> <strictRejects>")
+    conv <D>        → "<nonstrict> <strict>"  (ok | error | panic)
+    inst <D> <J>    → "<P> <V> <R>\t<reasons>"  P = acceptsDecoded (fromJS d), V = jsValid d, R = jsValid (toDoc (fromJS d))
 -/
 import Gozod.Drv.C07
 import Gozod.Model.FromJson
@@ -9,56 +10,245 @@ import Gozod.Gen.KeywordTable
 namespace Gozod.Drv.C11
 open Gozod.Jsc Gozod.Drv.C07
 
-def pOptNat : String → Option (Option Nat)
-  | "-" => some none
-  | t => t.toNat?.map some
-def pOptInt : String → Option (Option Int)
-  | "-" => some none
-  | t => t.toInt?.map some
+def pType : String → Option TypeName
+  | "string" => some .string | "number" => some .number | "integer" => some .integer | "boolean" => some .boolean
+  | "null" => some .null | "array" => some .array | "object" => some .object | _ => none
 
-partial def pJ0 : List String → Option (J0 × List String)
-  | "bool" :: ts => some (.bool, ts)
-  | "null" :: ts => some (.null, ts)
-  | "any" :: ts => some (.any, ts)
-  | "(" :: "str" :: a :: b :: ")" :: ts => do pure (.str (← pOptNat a) (← pOptNat b), ts)
-  | "(" :: "num" :: a :: b :: ")" :: ts => do pure (.num (← pOptInt a) (← pOptInt b), ts)
-  | "(" :: "int" :: a :: b :: ")" :: ts => do pure (.int (← pOptInt a) (← pOptInt b), ts)
-  | "(" :: "arr" :: ts => do
-      let (it, ts) ← pJ0 ts
-      match ts with
-      | a :: b :: ")" :: ts => pure (.arr it (← pOptNat a) (← pOptNat b), ts)
-      | _ => none
-  | "(" :: "anyOf" :: ts => do
-      let (a, ts) ← pJ0 ts
-      let (b, ts) ← pJ0 ts
-      match ts with | ")" :: ts => pure (.anyOf2 a b, ts) | _ => none
-  | "(" :: "oneOf" :: ts => do
-      let (a, ts) ← pJ0 ts
-      let (b, ts) ← pJ0 ts
-      match ts with | ")" :: ts => pure (.oneOf2 a b, ts) | _ => none
+def jsListOf : List JS → JSList
+  | [] => .nil
+  | j :: js => .cons j (jsListOf js)
+
+def jsPropsOf : List (Str × JS) → JSProps
+  | [] => .nil
+  | (k, j) :: r => .cons k j (jsPropsOf r)
+
+def pStrTok : P Str
+  | t :: ts => (decStr t).map (·, ts)
+  | [] => none
+
+def pTypeTok : P TypeName
+  | t :: ts => (pType t).map (·, ts)
+  | [] => none
+
+def pPat : P Pat
+  | "noUp" :: ts => some (.noUp, ts)
+  | "noLow" :: ts => some (.noLow, ts)
+  | "(" :: k :: s :: ")" :: ts =>
+    match k, decStr s with
+    | "pre", some s => some (.pre s, ts)
+    | "suf", some s => some (.suf s, ts)
+    | "has", some s => some (.has s, ts)
+    | _, _ => none
   | _ => none
 
-partial def why : J0 → List String
-  | .int _ _ => ["integer-type"]
-  | .arr it _ _ => why it
-  | .anyOf2 a b => (if a.admitsNull || b.admitsNull then ["nullable-union"] else []) ++ why a ++ why b
-  | .oneOf2 a b => (if a.admitsNull || b.admitsNull then ["nullable-union"] else []) ++ why a ++ why b
+mutual
+partial def pD : P JS
+  | "true" :: ts => some (.bool true, ts)
+  | "false" :: ts => some (.bool false, ts)
+  | "(" :: "node" :: ts => do let (ks, ts) ← pMany pKw ts; pure (.node (KwList.ofList ks), ts)
+  | _ => none
+
+partial def pKw : P Kw
+  | "(" :: name :: ts =>
+    let nat (f : Nat → Kw) : Option (Kw × List String) :=
+      match ts with | v :: ")" :: ts => v.toNat?.map (fun n => (f n, ts)) | _ => none
+    let int (f : Int → Kw) : Option (Kw × List String) :=
+      match ts with | v :: ")" :: ts => v.toInt?.map (fun n => (f n, ts)) | _ => none
+    let sub (f : JS → Kw) : Option (Kw × List String) := do
+      let (j, ts) ← pD ts
+      let (_, ts) ← expect ")" ts
+      pure (f j, ts)
+    let subs (f : JSList → Kw) : Option (Kw × List String) := do
+      let (js, ts) ← pMany pD ts
+      pure (f (jsListOf js), ts)
+    match name with
+    | "type" => match ts with | t :: ")" :: ts => (pType t).map (fun t => (.type t, ts)) | _ => none
+    | "types" => do let (tys, ts) ← pMany pTypeTok ts; pure (.types tys, ts)
+    | "minLength" => nat .minLength | "maxLength" => nat .maxLength
+    | "minItems" => nat .minItems | "maxItems" => nat .maxItems
+    | "minimum" => int .minimum | "maximum" => int .maximum
+    | "exclusiveMinimum" => int .exclusiveMinimum | "exclusiveMaximum" => int .exclusiveMaximum
+    | "multipleOf" => int .multipleOf
+    | "pattern" => do let (p, ts) ← pPat ts; let (_, ts) ← expect ")" ts; pure (.pattern p, ts)
+    | "enum" => do let (vs, ts) ← pMany pPrim ts; pure (.enum vs, ts)
+    | "const" => do let (v, ts) ← pPrim ts; let (_, ts) ← expect ")" ts; pure (.const v, ts)
+    | "items" => sub .items
+    | "additionalProperties" => sub .additionalProperties
+    | "not" => sub .not
+    | "ref" => sub .ref
+    | "prefixItems" => subs .prefixItems
+    | "anyOf" => subs .anyOf | "oneOf" => subs .oneOf | "allOf" => subs .allOf
+    | "properties" => do let (ps, ts) ← pMany pProp ts; pure (.properties (jsPropsOf ps), ts)
+    | "required" => do let (ks, ts) ← pMany pStrTok ts; pure (.required ks, ts)
+    | "format" => do
+        let (ss, ts) ← pMany pStrTok ts
+        match ss with
+        | n :: good => pure (.format n good, ts)
+        | [] => none
+    | "other" => do let (n, ts) ← pStrTok ts; let (_, ts) ← expect ")" ts; pure (.other n, ts)
+    | _ => none
+  | _ => none
+
+partial def pProp : P (Str × JS)
+  | "(" :: k :: ts => do
+      let k ← decStr k
+      let (j, ts) ← pD ts
+      let (_, ts) ← expect ")" ts
+      pure ((k, j), ts)
+  | _ => none
+end
+
+def strOf (s : Str) : String := String.ofList (s.map Char.ofNat)
+
+/-- the strict-mode table as a predicate on keyword names. -/
+def rejects (n : Str) : Bool :=
+  match Gozod.Gen.keywordTable.find? (fun r => r.kw == strOf n) with
+  | some r => r.strictRejects
+  | none => false
+
+def outcome : R → String
+  | .ok _ => "ok"
+  | .error .panic => "panic"
+  | .error (.unsupported _) => "error"
+
+/-! ### why a case lies outside the proved fragment (names as in known-findings.txt) -/
+
+def kwName : Kw → String
+  | .type _ => "type" | .types _ => "type" | .minLength _ => "minLength" | .maxLength _ => "maxLength" | .pattern _ => "pattern"
+  | .minimum _ => "minimum" | .maximum _ => "maximum" | .exclusiveMinimum _ => "exclusiveMinimum"
+  | .exclusiveMaximum _ => "exclusiveMaximum" | .multipleOf _ => "multipleOf" | .enum _ => "enum" | .const _ => "const"
+  | .items _ => "items" | .prefixItems _ => "prefixItems" | .minItems _ => "minItems" | .maxItems _ => "maxItems"
+  | .properties _ => "properties" | .required _ => "required" | .additionalProperties _ => "additionalProperties"
+  | .propertyNames _ => "propertyNames" | .minProperties _ => "minProperties" | .maxProperties _ => "maxProperties"
+  | .anyOf _ => "anyOf" | .oneOf _ => "oneOf" | .allOf _ => "allOf" | .not _ => "not" | .format _ _ => "format"
+  | .ref _ => "$ref" | .other n => strOf n
+
+partial def kwList : KwList → List Kw
+  | .nil => []
+  | .cons k ks => k :: kwList ks
+partial def jsList : JSList → List JS
+  | .nil => []
+  | .cons j js => j :: jsList js
+partial def jsProps : JSProps → List (Str × JS)
+  | .nil => []
+  | .cons k j ps => (k, j) :: jsProps ps
+
+/-- does the document admit `null` on its face (so that a union built from it meets the nil path) -/
+partial def admitsNull : JS → Bool
+  | .bool b => b
+  | .node kws =>
+    let ks := kwList kws
+    let names := ks.map kwName
+    if names.any (fun n => ["allOf", "anyOf", "oneOf", "const", "enum", "$ref"].contains n) then false
+    else match ks.filterMap (fun k => match k with | .type t => some [t] | .types ts => some ts | _ => none) with
+      | [] => true
+      | ts :: _ => ts.contains .null
+
+mutual
+partial def why : JS → List String
+  | .bool _ => []
+  | .node kws =>
+    let ks := kwList kws
+    let names := ks.map kwName
+    let has (n : String) := names.contains n
+    let types := (ks.filterMap (fun k => match k with | .type t => some [t] | .types ts => some ts | _ => none)).headD []
+    let assertion := ["type", "minLength", "maxLength", "pattern", "minimum", "maximum", "exclusiveMinimum", "exclusiveMaximum",
+      "multipleOf", "items", "prefixItems", "minItems", "maxItems", "properties", "required", "additionalProperties", "format",
+      "enum", "const", "allOf", "anyOf", "oneOf"]
+    let winner := ["$ref", "allOf", "anyOf", "oneOf", "const", "enum"].find? has
+    let siblings := match winner with
+      | some w => !(names.filter (fun n => n != w && assertion.contains n)).isEmpty
+      | none => false
+    let propKeys := (ks.filterMap (fun k => match k with | .properties ps => some ((jsProps ps).map (·.1)) | _ => none)).headD []
+    let req := (ks.filterMap (fun k => match k with | .required r => some r | _ => none)).headD []
+    let hasProps := !propKeys.isEmpty
+    let forString := ["minLength", "maxLength", "pattern", "format"]
+    let forNumber := ["minimum", "maximum", "exclusiveMinimum", "exclusiveMaximum", "multipleOf"]
+    let forArray := ["items", "prefixItems", "minItems", "maxItems"]
+    let forObject := ["properties", "required", "additionalProperties"]
+    let stray (t : TypeName) (l : List String) := !types.contains t && l.any has
+    let knownFmt := ks.any (fun k => match k with | .format n _ => knownFormats.contains n | _ => false)
+    (if siblings then ["sibling-keywords-dropped"] else [])
+    ++ (if winner.isNone && (stray .string forString || (stray .number forNumber && stray .integer forNumber)
+          || stray .array forArray || stray .object forObject) then ["keywords-without-type-ignored"] else [])
+    ++ (if types.contains .integer then ["integer-type"] else [])
+    ++ (if decide (types.length > 1) && types.contains .null then ["nullable-union"] else [])
+    ++ (if has "prefixItems" then ["tuple-items-all-required"] else [])
+    ++ (if hasProps && ks.any (fun k => match k with | .additionalProperties (.node _) => true | _ => false)
+        then ["catchall-on-strip-object"] else [])
+    ++ (let opt := ((ks.filterMap (fun k => match k with | .properties ps => some (jsProps ps) | _ => none)).headD []).filter
+              (fun kv => !req.contains kv.1)
+        let stays := opt.any (fun kv => match fromJS rejects false kv.2 with
+          | .ok s => (match makeOptional s with | .opt _ => false | _ => true)
+          | .error _ => false)
+        let nulls := opt.any (fun kv => match fromJS rejects false kv.2 with
+          | .ok s => (match makeOptional s with | .opt _ => true | _ => false)
+          | .error _ => false)
+        (if stays then ["optional-property-stays-required"] else [])
+        ++ (if nulls then ["optional-property-accepts-null"] else []))
+    ++ (if types.contains .object && winner.isNone
+          && !(ks.any (fun k => match k with | .additionalProperties (.bool false) => true | _ => false))
+          && (hasProps || !(has "additionalProperties")) then ["open-object-closed"] else [])
+    ++ (if req.any (fun k => !propKeys.contains k) then ["required-without-property"] else [])
+    ++ (if knownFmt && ["minLength", "maxLength", "pattern"].any has then ["format-siblings-dropped"] else [])
+    ++ (if ks.any (fun k => match k with | .const .null => true | .enum vs => vs.contains .null && (allStrs vs).isNone | _ => false)
+        then ["literal-null-panics"] else [])
+    ++ (if ks.any (fun k => match k with | .other _ => true | .not _ => true | .propertyNames _ => true | _ => false)
+        then ["unmodelled-keyword"] else [])
+    ++ (ks.map whyKw).flatten
+
+partial def whyKw : Kw → List String
+  | .items j => why j
+  | .prefixItems js => ((jsList js).map why).flatten
+  | .properties ps => ((jsProps ps).map (fun kv => why kv.2)).flatten
+  | .additionalProperties j => why j
+  | .anyOf js => (if decide ((jsList js).length > 1) && (jsList js).any admitsNull then ["nullable-union"] else []) ++ ((jsList js).map why).flatten
+  | .oneOf js => (if decide ((jsList js).length > 1) && (jsList js).any admitsNull then ["nullable-union"] else []) ++ ((jsList js).map why).flatten
+  | .allOf js => (if decide ((jsList js).length > 1) then ["intersection"] else []) ++ ((jsList js).map why).flatten
+  | .ref j => why j
+  | .not j => why j
   | _ => []
+end
+
+mutual
+partial def usesFormat : JS → Bool
+  | .bool _ => false
+  | .node kws => (kwList kws).any usesFormatKw
+partial def usesFormatKw : Kw → Bool
+  | .format n _ => knownFormats.contains n
+  | .items j => usesFormat j
+  | .additionalProperties j => usesFormat j
+  | .not j => usesFormat j
+  | .ref j => usesFormat j
+  | .prefixItems js => (jsList js).any usesFormat
+  | .anyOf js => (jsList js).any usesFormat
+  | .oneOf js => (jsList js).any usesFormat
+  | .allOf js => (jsList js).any usesFormat
+  | .properties ps => (jsProps ps).any (fun kv => usesFormat kv.2)
+  | _ => false
+end
 
 def handle : List String → String
   | ["kw", k] =>
     match Gozod.Gen.keywordTable.find? (fun r => r.kw == k) with
     | some r => b2s r.documented ++ " " ++ b2s r.strictRejects
     | none => "unknown-keyword"
+  | "conv" :: ts =>
+    match pD ts with
+    | some (d, []) => outcome (fromJS rejects false d) ++ " " ++ outcome (fromJS rejects true d)
+    | _ => "bad-op"
   | "inst" :: ts =>
-    match pJ0 ts with
-    | some (j, ts) =>
+    match pD ts with
+    | some (d, ts) =>
       match pJ ts with
       | some (x, []) =>
-        let rs := dedup (why j ++ instReasons x)
-        let coherent := (rs.isEmpty == (supported j && instOK x))
-        b2s (acceptsPlain j x) ++ " " ++ b2s (jsValid j.doc x) ++ " " ++ b2s (jsValid (toDoc (fromJ0 j)) x)
-          ++ "\t" ++ (if coherent then "" else "INCOHERENT,") ++ ",".intercalate rs
+        match fromJS rejects false d with
+        | .ok s =>
+          let rs := dedup (why d ++ instReasons x)
+          b2s (acceptsDecoded s x) ++ " " ++ b2s (jsValid d x) ++ " "
+            ++ (if usesFormat d then "~" else b2s (jsValid (toDoc s) x))
+            ++ "\t" ++ ",".intercalate rs
+        | .error _ => "conversion-failed"
       | _ => "bad-op"
     | none => "bad-op"
   | _ => "bad-op"
